@@ -78,6 +78,34 @@ fn sources(tier: &str) -> Vec<Src> {
     for i in checks::c16::all_inputs().into_iter().step_by(if tier == "thorough" { 1 } else { 5 }) {
         out.push(plain("conventions", i));
     }
+    for i in checks::c05::all_inputs().into_iter().step_by(if tier == "thorough" { 1 } else { 4 }) {
+        out.push(plain("impl_blocks", i));
+    }
+    // markers on a type whose first base carries the vftable (region 0 is then the base itself)
+    for markers in 0..8u32 {
+        for base_markers in [0u32, markers] {
+            let attrs = |m: u32| {
+                let mut a = vec![];
+                if m & 1 != 0 { a.push("copyable"); }
+                if m & 2 != 0 { a.push("cloneable"); }
+                if m & 4 != 0 { a.push("defaultable"); }
+                if a.is_empty() { String::new() } else { format!("#[{}]\n", a.join(", ")) }
+            };
+            for with_block in [false, true] {
+                // defaultable needs defaultable fields: the vftable pointer is not one, so only without it
+                if (markers & 4 != 0 || base_markers & 4 != 0) && true {
+                    continue;
+                }
+                let t = format!(
+                    "{}pub type VBase {{\n    vftable {{\n        pub fn v(&self);\n    }},\n    pub a: u32,\n    pub b: u32,\n}}\n{}pub type T {{\n{}    #[base]\n    pub base: VBase,\n    pub x: u32,\n    pub y: u32,\n}}\n",
+                    attrs(base_markers),
+                    attrs(markers),
+                    if with_block { "    vftable {\n        pub fn v(&self);\n        pub fn w(&self);\n    },\n" } else { "" }
+                );
+                out.push(Src { family: "markers", input: Input::single(t), supply: vec![], features: vec!["inherited_vftable".into()] });
+            }
+        }
+    }
     for i in checks::c11::all_inputs(tier).into_iter().step_by(if tier == "thorough" { 3 } else { 23 }) {
         let mut s = plain("scoping", i);
         if s.input.modules.iter().any(|(_, t)| t.contains("pub type u32 ")) {
